@@ -20,7 +20,7 @@ INVARIANTS = ["C06_Batch", "C06_Groups", "C06_Counts"]
 PROPERTIES = []
 QUICK = ['nest_s', 'grp2']
 THOROUGH = ['nest_s', 'grp2', 'chain2', 'upd2', 'diamond', 'clean', 'sib', 'nest', 'ffroot', 'ff_s', 'upd3', 'vee2']
-FINDINGS = [("uncchild", "upd2", ["C06_Batch"])]
+FINDINGS = []
 
 
 def run(ctx):
